@@ -2,6 +2,7 @@ import FV.Props.Catalog
 import FV.EmplaceAll
 import FV.EmplaceFlexContent
 import FV.Spec.Serialize
+import FV.EmplaceAccAll
 /-! # C03 — emplace, then read back
 
 `emplaceU` is `Emplacer::emplace_unchecked`; `emplace` (= `new_in_place`) adds the alignment / minimum-size gate.
